@@ -588,7 +588,10 @@ class SupplyChainProduct(object):
 			for attr in cls._DEFAULT_VALUES.keys():
 				# Some attributes require special handling.
 				if attr == 'demand_source':
-					if attr in the_dict:
+					if attr in the_dict and the_dict[attr] is None:
+						# Attribute was explicitly saved as None.
+						value = None
+					elif attr in the_dict:
 						value = demand_source.DemandSource.from_dict(the_dict[attr])
 					else:
 						value = demand_source.DemandSource.from_dict(None)
@@ -598,7 +601,9 @@ class SupplyChainProduct(object):
 					else:
 						value = disruption_process.DisruptionProcess.from_dict(None)
 				elif attr == '_inventory_policy':
-					if attr in the_dict:
+					if attr in the_dict and the_dict[attr] is None:
+						value = None
+					elif attr in the_dict:
 						value = policy.Policy.from_dict(the_dict[attr])
 						# Set policy's node to None.
 						value.node = None
